@@ -545,7 +545,8 @@ class CaseProof(StateItem):
             "latex_goal": latex.convert_expr(self.goal),
             "case_1": self.case_1.export(),
             "case_2": self.case_2.export(),
-            "split_cond": latex.convert_expr(self.split_cond),
+            "split_cond": str(self.split_cond),
+            "latex_split_cond": latex.convert_expr(self.split_cond),
             "finished": self.is_finished()
         }
 
